@@ -37,6 +37,7 @@ TOLERANCES = {"permutation-default": 1e-6,    # [4.3e-9] of the peak field
               "rotation-tight": 1e-5,         # [7.1e-8]
               "one-sphere-vs-mie": 6e-3,      # [2.0e-4]
               "weak-coupling": 0.3,           # [1.6e-2]
+              "displaced-sphere": 1e-5,       # [2.2e-7]
               "auto-vs-explicit": "bit-identical"}
 TIMEOUT = 900
 
@@ -84,6 +85,9 @@ def cases(tier, seed):
     # cross sections of an oblique dimer under a joint rotation of the
     # cluster and the polarization
     out.append({"id": "xsec-rotation", "kind": "xsecrot", "_timeout": 900})
+    for i in range(len(DISPLACED)):
+        out.append({"id": "displaced-sphere#%d" % i, "kind": "displaced",
+                    "i": i})
     # a cluster whose pairs share an x or a y coordinate exactly (special
     # branch of the translation matrices): permutations and rotations
     for opt in ("default", "tight"):
@@ -246,7 +250,11 @@ def _run_bigperm(case, ck):
 def _run_rot(case, ck):
     from holopy.scattering import Multisphere
     sub = case["sub"]
-    det0 = H.det_points(PTS)
+    # the detector points include the foot of the axis through the cluster's
+    # centroid (the origin of the cluster-centred expansion: polar angle 0)
+    cen = np.asarray(_spheres(sub).center, float)
+    pts0 = np.vstack([PTS, [cen[0], cen[1], 0.0]])
+    det0 = H.det_points(pts0)
     fps = []
     for opt, kw, tol in (("default", {}, TOLERANCES["rotation-default"]),
                          ("tight", TIGHT, TOLERANCES["rotation-tight"]),
@@ -265,7 +273,7 @@ def _run_rot(case, ck):
             c, s = math.cos(ps), math.sin(ps)
             R = np.array([[c, -s, 0], [s, c, 0], [0, 0, 1.0]])
             pivot = np.array([0.4, -0.3, 0.0])
-            P1 = pivot + (PTS - pivot) @ R.T
+            P1 = pivot + (pts0 - pivot) @ R.T
             pol1 = (math.cos(0.3 + ps), math.sin(0.3 + ps))
             f = _field(H.det_points(P1), _spheres(sub, R=R, pivot=pivot),
                        shared or Multisphere(**kw), pol1)
@@ -484,17 +492,56 @@ def _run_xsecrot(case, ck):
                               (math.cos(pa + ps), math.sin(pa + ps)),
                               theory=Multisphere()).values
     ck.trans += 2
-    # (the extinction value from the optical theorem is itself only
-    # rotation invariant to ~1e-3 on the unchanged tree and is not asserted)
-    for i, name in ((0, "C_sca"), (3, "asymmetry")):
+    for i, name in ((0, "C_sca"), (2, "C_ext"), (3, "asymmetry")):
         e = abs(rot[i] - base[i]) / abs(base[i])
         ck.metric("xsec-rotation-" + name, e)
         ck.true("xsec-rotation-covariant", e <= 1e-6,
                 "%s of an oblique dimer changes by %.2e when cluster and "
                 "polarization are rotated together by 37 deg" % (name, e))
-    ck.metric("xsec-rotation-Cext(not asserted)",
-              abs(rot[2] - base[2]) / abs(base[2]))
     return digest(np.round(np.asarray(base, float), 9))
+
+
+# a sphere accompanied by a vanishing companion (radius 1e-3, index of the
+# medium to 1e-7): the cluster is expanded about the midpoint, so the field
+# of the sphere reaches the detector through the translated, cluster-centred
+# expansion with every azimuthal order -- and must be the Lorenz-Mie field
+# of the sphere, in all three components, near and far.
+DISPLACED = [(0.6, 0.2, 0.0), (0.3, -0.4, 0.5), (0.0, 0.0, 0.6)]
+
+
+def _run_displaced(case, ck):
+    from holopy.scattering import Sphere, Spheres, Multisphere, Mie
+    h = np.array(DISPLACED[case["i"]])
+    fps = []
+    for Z in (5.0, 20.0):
+        P = np.array([[0, 0, 0.0], [0.5, 0.2, 0.0], [-0.8, 0.3, 0.0],
+                      [1.2, -0.9, 0.0], [3, 4, 0.0], [-2, 1.5, 0],
+                      [0.3, 0.0, 0.0], [0, -0.4, 0]]) * Z / 5.0
+        det = H.det_points(P)
+        c0 = np.array((0.0, 0.0, Z))
+        s1 = Sphere(n=1.59, r=0.3, center=tuple(c0 - h))
+        s2 = Sphere(n=H.NMED + 1e-7, r=1e-3, center=tuple(c0 + h))
+        with warnings.catch_warnings():
+            warnings.simplefilter("ignore")
+            clus = Spheres([s1, s2])
+        for pa in (0.0, 53.13010235415598, 90.0):
+            pol = (math.cos(math.radians(pa)), math.sin(math.radians(pa)))
+            a = _field(det, clus, Multisphere(compute_escat_radial=True,
+                                              **TIGHT), pol)
+            b = _field(det, s1, Mie(True, True), pol)
+            ck.trans += 2
+            e = float(np.abs(a - b).max() / np.abs(b).max())
+            ck.metric("displaced-sphere", e)
+            ck.true("displaced-sphere", e <= TOLERANCES["displaced-sphere"],
+                    "sphere displaced by %r from the cluster origin (with a "
+                    "vanishing companion), detector plane %g away, "
+                    "polarization %g deg: Multisphere field differs from "
+                    "the Lorenz-Mie field of the sphere by %.2e (components "
+                    "x, y, z: %s)" % (tuple(-h), Z, pa, e, " ".join(
+                        "%.1e" % v for v in np.abs(a - b).max(0) /
+                        np.abs(b).max())))
+            fps.append(fp_values(a))
+    return digest(*fps)
 
 
 def run_case(case):
@@ -503,5 +550,6 @@ def run_case(case):
     _USE_SIZES[0] = bool(case.get("sizes"))
     fp = {"perm": _run_perm, "bigperm": _run_bigperm, "rot": _run_rot,
           "rule": _run_rule, "weak": _run_weak,
-          "xsecrot": _run_xsecrot}[case["kind"]](case, ck)
+          "xsecrot": _run_xsecrot,
+          "displaced": _run_displaced}[case["kind"]](case, ck)
     return ck.result(fp=fp)
